@@ -43,12 +43,12 @@ SHAPES = [(), (1,), (3,), (2, 2), (2, 3), (2, 3, 2), (0,)]
 
 
 def cases(tier, seed):
-    out = pool.pool_cases(tier, seed, ['c01', 'c02', 'c07', 'c08', 'c13', 'c09', 'c03', 'c05'], 120 if tier == 'quick' else 800)
+    out = pool.pool_cases(tier, seed, ['c01', 'c02', 'c07', 'c08', 'c13', 'c09', 'c03', 'c05'], 120 if tier == 'quick' else 3000)
     if tier == 'thorough':
         out.insert(0, pool.ambient_case(PID))
     if tier == 'thorough':
         out.insert(0, pool.ambient_docs_case(PID))
-    reps = 1 if tier == 'quick' else 20
+    reps = 1 if tier == 'quick' else 60
     for rep in range(reps):
         for D in (1, 3):
             for P in (1, 2, 3):
